@@ -65,7 +65,7 @@ CHECKS['C14'] = dict(
          'start.iter_days().take(num_days()), calls the single-date API with unchanged params for exactly that date and stores it under '
          'that date; partition blocks are [s, min(s+B-1,end)], next start s+B, B = ceil(days/count), guard s <= end. '
          '`at most max(k,1) parts` is arithmetic on runtime sizes: not decided.'
-         ' R14.1 also requires that a negative day difference is clamped, not folded by an absolute value; R14.2 accepts a range API that does not call the single-date API if every stored value is that API\'s own value term for its date.',
+         ' R14.1 also requires that a negative day difference is clamped, not folded by an absolute value; R14.2 accepts a range API that does not call the single-date API if every stored value is that API\'s own value term for its date. Includes R20.5 (no thread-local, static or lock-protected state on the computation path).',
     note=ASSUME + '; chrono date arithmetic',
     technique='abstract interpretation of the range functions + linear-form / lower-bound checks on the reconstructed terms')
 CHECKS['C15'] = dict(
@@ -75,7 +75,7 @@ CHECKS['C15'] = dict(
          'the tested n, collector only appends into the returned map. With C14 this gives equality with the sequential map under every '
          'interleaving.'
          ' R15.5 inventories the failure sites of the range API (an argument that must be positive is evaluated for the empty range); includes C14\'s R14.1/R14.3.'
-         ' R15.6 block independence: what the sequential API stores under a date mentions no loop-carried state besides the date.',
+         ' R15.6 block independence: what the sequential API stores under a date mentions no loop-carried state besides the date. Includes R20.5 (no thread-local, static or lock-protected state on the computation path).',
     note=ASSUME + '; mpsc channel closure and thread::scope join semantics; C14',
     technique='move/drop typestate on per-path event traces from abstract interpretation + call/argument identity checks')
 CHECKS['C16'] = dict(
